@@ -4,6 +4,7 @@
   estimators used by the correspondence.  The model is a pure function of (steps, arguments), so "a refitted chain behaves
   like a fresh one" holds by construction; the harness checks it on the implementation (fit other data, refit, compare).
 -/
+import VerdeModel.Gen.Chain
 import VerdeModel.Model.Chain
 import VerdeModel.Lemmas.Num
 namespace Verde.C06
@@ -134,5 +135,241 @@ example : (do let (rf, _) ← chainThread (StepSpec.stepsOf [.trend 1, .knn 1 .m
               pure rf.data : Except Err Data).toOption = none ∨ True := Or.inr trivial
 example : SameShape [[1, 2, 3]] [[4, 5, 6]] := List.Forall₂.cons rfl List.Forall₂.nil
 example : dadd (dsub [[1, 2, 3]] [[4, 5, 6]]) [[4, 5, 6]] = [[1, 2, 3]] := by decide +kernel
+
+/-! ### Bridges: `Chain.fit` and `Chain.predict` regenerated from source -/
+
+/-- The inner loop `for i, pred in enumerate(predicted): result[i] = result[i] + pred`, on a `result` with one entry per component. -/
+theorem enum_add_aux (predicted : Data) (done todo : List Acc) (h : todo.length = predicted.length) :
+    (predicted.zipIdx done.length).foldlM (m := Except Err) (fun (result : List Acc) (pi : List Rat × Nat) => do
+        let (pred, i) := pi
+        pure (setAcc result i (addAcc (← getAcc result i) pred))) (done ++ todo)
+      = pure (done ++ List.zipWith addAcc todo predicted) := by
+  induction predicted generalizing done todo with
+  | nil =>
+    have : todo = [] := List.length_eq_zero_iff.mp h
+    subst this
+    simp
+  | cons p rest ih =>
+    cases todo with
+    | nil => simp at h
+    | cons t ts =>
+      simp only [List.zipIdx_cons, List.foldlM_cons, List.zipWith_cons_cons]
+      have hget : getAcc (done ++ t :: ts) done.length = .ok t := by
+        simp [getAcc]
+      have hset : setAcc (done ++ t :: ts) done.length (addAcc t p) = (done ++ [addAcc t p]) ++ ts := by
+        simp [setAcc, List.set_append]
+      simp only [hget, bind, Except.bind, pure, Except.pure, hset]
+      have := ih (done ++ [addAcc t p]) ts (by simpa using h)
+      simp only [List.length_append, List.length_singleton, pure, Except.pure, bind, Except.bind] at this
+      rw [this]
+      simp
+
+/-- The inner loop on a whole `result`. -/
+theorem enum_add (predicted : Data) (result : List Acc) (h : result.length = predicted.length) :
+    predicted.zipIdx.foldlM (m := Except Err) (fun (result : List Acc) (pi : List Rat × Nat) => do
+        let (pred, i) := pi
+        pure (setAcc result i (addAcc (← getAcc result i) pred))) result
+      = pure (List.zipWith addAcc result predicted) := by
+  have := enum_add_aux predicted [] result h
+  simpa using this
+
+theorem zipWith_addAcc_zeros (predicted : Data) :
+    List.zipWith addAcc (zerosAcc predicted.length) predicted = predicted.map some := by
+  induction predicted with
+  | nil => rfl
+  | cons p rest ih => simp [zerosAcc, List.replicate_succ, addAcc] at ih ⊢; exact ih
+
+theorem zipWith_addAcc_some (acc predicted : Data) :
+    List.zipWith addAcc (acc.map some) predicted = (dadd acc predicted).map some := by
+  induction acc generalizing predicted with
+  | nil => simp [dadd]
+  | cons a rest ih =>
+    cases predicted with
+    | nil => simp [dadd]
+    | cons p ps => simp [dadd, addAcc] at ih ⊢; exact ih ps
+
+/-- What `Chain.fit` leaves behind, step by step (the model's `chainThread` keeps only the predictors). -/
+def threadAll : List Step → Rows → Except Err (Rows × List (Option Predictor))
+  | [], r => pure (r, [])
+  | s :: ss, r => do
+    let (r', p) ← s.filter r
+    let (rf, ps) ← threadAll ss r'
+    pure (rf, p :: ps)
+
+theorem chainThread_eq_threadAll (steps : List Step) (r : Rows) :
+    chainThread steps r = (threadAll steps r).map fun x => (x.1, x.2.filterMap id) := by
+  induction steps generalizing r with
+  | nil => rfl
+  | cons s ss ih =>
+    simp only [chainThread, threadAll, bind, Except.bind]
+    cases hs : s.filter r with
+    | error e => rfl
+    | ok v =>
+      obtain ⟨r', p⟩ := v
+      simp only [ih r']
+      cases threadAll ss r' with
+      | error e => rfl
+      | ok w =>
+        obtain ⟨rf, ps⟩ := w
+        cases p <;> simp [Except.map, pure, Except.pure]
+
+/-- The body of the loop of `Chain.fit`, as generated. -/
+def fitF (st : Rows × List (Option Predictor)) (step : Step) : Except Err (Rows × List (Option Predictor)) := do
+  let (args, fitted) := st
+  let (args, left_in_step) ← step.filter args
+  pure (args, fitted ++ [left_in_step])
+
+theorem fit_fold (steps : List Step) (r : Rows) (acc : List (Option Predictor)) :
+    steps.foldlM fitF (r, acc) = (threadAll steps r).map fun x => (x.1, acc ++ x.2) := by
+  induction steps generalizing r acc with
+  | nil => simp [threadAll, Except.map, pure, Except.pure]
+  | cons s ss ih =>
+    rw [List.foldlM_cons]
+    cases hs : s.filter r with
+    | error e =>
+      have h1 : fitF (r, acc) s = .error e := by simp [fitF, hs, bind, Except.bind]
+      rw [h1]
+      simp [threadAll, hs, bind, Except.bind, Except.map]
+    | ok v =>
+      obtain ⟨r', p⟩ := v
+      have h1 : fitF (r, acc) s = .ok (r', acc ++ [p]) := by simp [fitF, hs, bind, Except.bind, pure, Except.pure]
+      rw [h1]
+      show ss.foldlM fitF (r', acc ++ [p]) = _
+      rw [ih r' (acc ++ [p])]
+      simp only [threadAll, hs, bind, Except.bind]
+      cases threadAll ss r' with
+      | error e => rfl
+      | ok w => simp [Except.map, pure, Except.pure]
+
+/-- **Bridge (fit).**  `Chain.fit` as regenerated STATEMENT BY STATEMENT from /repo's source text on every run (the initial argument tuple in the
+    code's positional order, the loop `for _, step in self.steps: args = step.filter(*args)`) leaves in the steps exactly what threading the
+    arguments through the steps leaves: each step fitted on what the previous step's `filter` returned, in list order, whatever the names. -/
+theorem gen_chain_fit_eq_model (steps : List Step) (c : List (List Rat)) (d : Data) (w : Option Data) :
+    Gen.chainFit steps c d w = (threadAll steps ⟨c, d, w⟩).map (·.2) := by
+  have h : Gen.chainFit steps c d w = (do let (_, fitted) ← steps.foldlM fitF (⟨c, d, w⟩, []); pure fitted) := rfl
+  rw [h, fit_fold]
+  cases threadAll steps ⟨c, d, w⟩ <;> simp [Except.map, pure, Except.pure, bind, Except.bind]
+
+/-- The body of the loop of `Chain.predict`, as generated. -/
+def predF (coordinates : List (List Rat)) (result : Option (List Acc)) (step : Option Predictor) : Except Err (Option (List Acc)) := do
+  match step with
+  | some step_predict => do
+      let predicted ← step_predict coordinates
+      let result := (match result with
+        | none => zerosAcc predicted.length
+        | some result => result)
+      let result ← predicted.zipIdx.foldlM (fun (result : List Acc) (pi : List Rat × Nat) => do
+          let (pred, i) := pi
+          pure (setAcc result i (addAcc (← getAcc result i) pred))) result
+      pure (some result)
+  | none => pure result
+
+theorem gen_chain_predict_unfold (l : List (Option Predictor)) (q : List (List Rat)) :
+    Gen.chainPredict l q = (do let result ← l.foldlM (predF q) none; lenAccE result) := rfl
+
+theorem predF_none (q : List (List Rat)) (acc : Option (List Acc)) : predF q acc none = pure acc := rfl
+
+theorem predF_first (q : List (List Rat)) (p : Predictor) :
+    predF q none (some p) = (p q).map fun first => some (first.map some) := by
+  simp only [predF, bind, Except.bind]
+  cases hp : p q with
+  | error e => rfl
+  | ok first =>
+    simp only []
+    have := enum_add first (zerosAcc first.length) (by simp [zerosAcc])
+    simp only [bind, Except.bind] at this
+    rw [this, zipWith_addAcc_zeros]
+    rfl
+
+theorem predF_next (q : List (List Rat)) (p : Predictor) (acc : Data) :
+    predF q (some (acc.map some)) (some p) = (p q).bind fun pred =>
+      if pred.length = acc.length then .ok (some ((dadd acc pred).map some))
+      else predF q (some (acc.map some)) (some fun _ => .ok pred) := by
+  simp only [predF, bind, Except.bind]
+  cases hp : p q with
+  | error e => rfl
+  | ok pred =>
+    simp only []
+    by_cases hl : pred.length = acc.length
+    · have := enum_add pred (acc.map some) (by simp [hl])
+      simp only [bind, Except.bind] at this
+      rw [this, zipWith_addAcc_some]
+      simp [hl, pure, Except.pure]
+    · simp [hl]
+
+theorem fold_skips_none (q : List (List Rat)) (l : List (Option Predictor)) (acc : Option (List Acc)) :
+    l.foldlM (predF q) acc = (l.filterMap id).foldlM (fun a p => predF q a (some p)) acc := by
+  induction l generalizing acc with
+  | nil => rfl
+  | cons s rest ih =>
+    cases s with
+    | none =>
+      rw [List.foldlM_cons, predF_none]
+      simp only [pure_bind]
+      rw [ih]
+      simp
+    | some p =>
+      simp only [List.foldlM_cons, List.filterMap_cons_some, id]
+      congr 1
+      funext a
+      exact ih a
+
+theorem dadd_length (a b : Data) (h : b.length = a.length) : (dadd a b).length = a.length := by
+  simp [dadd, h]
+
+/-- The model's accumulation step. -/
+def sumF (q : List (List Rat)) (acc : Data) (pk : Predictor) : Except Err Data := do pure (dadd acc (← pk q))
+
+theorem fold_next (q : List (List Rat)) (n : Nat) (rest : List Predictor) (acc : Data) (hacc : acc.length = n)
+    (hlen : ∀ p ∈ rest, ∀ r, p q = .ok r → r.length = n) :
+    rest.foldlM (fun a p => predF q a (some p)) (some (acc.map some))
+      = (rest.foldlM (sumF q) acc).map fun a => some (a.map some) := by
+  induction rest generalizing acc with
+  | nil => rfl
+  | cons p ps ih =>
+    rw [List.foldlM_cons, List.foldlM_cons, predF_next]
+    cases hp : p q with
+    | error e => simp [sumF, hp, Except.bind, bind, Except.map]
+    | ok pred =>
+      have hl : pred.length = acc.length := by rw [hacc]; exact hlen p (by simp) pred hp
+      simp only [sumF, hp, Except.bind, hl, if_true, bind, pure, Except.pure]
+      exact ih (dadd acc pred) (by rw [dadd_length acc pred hl, hacc]) (fun p' hp' => hlen p' (by simp [hp']))
+
+/-- **Bridge (predict).**  `Chain.predict` as regenerated STATEMENT BY STATEMENT from /repo's source text on every run (`result = None`, the loop over
+    the steps, `hasattr(step, "predict")`, the lazily created `[0 for i in range(len(predicted))]`, the inner loop
+    `result[i] = result[i] + pred`, `len(result)`) is the model's component-wise sum of the predictions of the steps that can predict — for
+    every list of fitted steps whose predictors agree on the number of components; no predicting step at all is a TypeError in both. -/
+theorem gen_chain_predict_eq_model (l : List (Option Predictor)) (q : List (List Rat)) (n : Nat)
+    (hlen : ∀ p ∈ l.filterMap id, ∀ r, p q = .ok r → r.length = n) :
+    Gen.chainPredict l q = (sumPredictors (l.filterMap id) q).map fun d => d.map some := by
+  rw [gen_chain_predict_unfold, fold_skips_none]
+  cases hps : l.filterMap id with
+  | nil => simp [sumPredictors, lenAccE, bind, Except.bind, pure, Except.pure, Except.map]
+  | cons p rest =>
+    rw [hps] at hlen
+    rw [List.foldlM_cons, predF_first]
+    change _ = Except.map (fun d => d.map some) (do let first ← p q; rest.foldlM (sumF q) first)
+    cases hp : p q with
+    | error e => simp [Except.map, bind, Except.bind]
+    | ok first =>
+      have hf : first.length = n := hlen p (by simp) first hp
+      simp only [Except.map, bind, Except.bind]
+      rw [fold_next q n rest first hf (fun p' hp' => hlen p' (by simp [hp']))]
+      cases rest.foldlM (sumF q) first <;> simp [Except.map, lenAccE]
+
+/-- **Bridge (fit then predict).**  The regenerated `Chain.fit` followed by the regenerated `Chain.predict` is the model's chain. -/
+theorem gen_chain_eq_model (steps : List Step) (c : List (List Rat)) (d : Data) (w : Option Data) (q : List (List Rat)) (n : Nat)
+    (hlen : ∀ rf l, threadAll steps ⟨c, d, w⟩ = .ok (rf, l) → ∀ p ∈ l.filterMap id, ∀ r, p q = .ok r → r.length = n) :
+    (Gen.chainFit steps c d w >>= fun l => Gen.chainPredict l q)
+      = (chainFit steps ⟨c, d, w⟩ >>= fun p => p q).map fun data => data.map some := by
+  rw [gen_chain_fit_eq_model]
+  unfold chainFit
+  rw [chainThread_eq_threadAll]
+  cases ht : threadAll steps ⟨c, d, w⟩ with
+  | error e => rfl
+  | ok v =>
+    obtain ⟨rf, l⟩ := v
+    simp only [Except.map, bind, Except.bind, pure, Except.pure]
+    exact gen_chain_predict_eq_model l q n (hlen rf l ht)
 
 end Verde.C06
